@@ -111,6 +111,8 @@ type ChanObj struct {
 	Closed bool
 	Env   string // non-empty: environment channel kind
 	EnvV  Value
+	EnvReady Value // closure func() bool evaluated at each look
+	EnvTake  Value // closure func() run when a value is taken
 	ID    int
 }
 
